@@ -48,11 +48,13 @@ def class_spec(draw, idx, prev):
     eq = draw(st.sampled_from([True, True, False]))
     order = eq and draw(st.booleans())
     unsafe_hash = draw(st.sampled_from([False, False, True]))
-    base = draw(st.sampled_from([None, None, "unslotted", "slotted", "hand"]))
+    # single inheritance, optionally through a second ancestor: root(unslotted|slotted) <- mid(unslotted|slotted) <- class
+    base = draw(st.sampled_from([None, None, "unslotted", "slotted", "hand", "unslotted>unslotted", "unslotted>slotted",
+                                 "slotted>slotted", "slotted>unslotted", "hand>unslotted"]))
     nf = draw(st.integers(0, 5 if base is None else 3))
     names = FIELD_NAMES[:nf] if base is None else FIELD_NAMES[2:2 + nf]
     first_default = draw(st.integers(0, nf))
-    base_has_default = base in ("unslotted", "slotted") and draw(st.booleans())
+    base_has_default = base is not None and base != "hand" and draw(st.booleans())
     fields = []
     for i, n in enumerate(names):
         typ = draw(st.sampled_from(["int", "str", "list"]))
@@ -92,15 +94,28 @@ def emit(specs, slotted: bool) -> str:
     for i, s in enumerate(specs):
         deco = f"@classes.slotted(dict={s['dict']}, weakref={s['weakref']})\n" if slotted else ""
         base_expr = ""
-        if s["base"] in ("unslotted", "slotted"):
-            bname = f"Base{i}"
-            bdeco = "@classes.slotted(dict=False, weakref=False)\n" if (slotted and s["base"] == "slotted") else ""
-            bd = " = 1" if s["base_has_default"] else ""
-            out.append(f"{bdeco}@dataclasses.dataclass({_flags(s)})\nclass {bname}:\n    a: int{bd}\n    b: str{' = ' + repr('bb') if s['base_has_default'] else ''}\n")
-            base_expr = f"({bname})"
-        elif s["base"] == "hand":
+        if s["base"] == "hand":
             out.append(f"class Hand{i}:\n    __slots__ = ()\n    def hello(self):\n        return 'hi'\n")
             base_expr = f"(Hand{i})"
+        elif s["base"]:
+            chain = s["base"].split(">")          # root first
+            parent = ""
+            for lvl, kind in enumerate(chain):
+                last = lvl == len(chain) - 1
+                cname = f"Base{i}" if last else f"Root{i}"
+                if kind == "hand":
+                    out.append(f"class {cname}:\n    __slots__ = ()\n    def hello(self):\n        return 'hi'\n")
+                    parent = f"({cname})"
+                    continue
+                bdeco = "@classes.slotted(dict=False, weakref=False)\n" if (slotted and kind == "slotted") else ""
+                if last:
+                    bd = " = 1" if s["base_has_default"] else ""
+                    body = f"    a: int{bd}\n    b: str{' = ' + repr('bb') if s['base_has_default'] else ''}\n"
+                else:
+                    body = "    pass\n"
+                out.append(f"{bdeco}@dataclasses.dataclass({_flags(s)})\nclass {cname}{parent}:\n{body}")
+                parent = f"({cname})"
+            base_expr = f"(Base{i})"
         if s["poison_before"] and slotted:
             # a decoration that is expected to fail: not a dataclass
             out.append(f"try:\n    @classes.slotted(dict={s['dict']}, weakref={s['weakref']})\n    class {s['name']}:\n        x: int = 0\nexcept Exception as e:\n    ERRORS.append(('poison', {i}, type(e).__name__))\n")
@@ -125,14 +140,14 @@ def emit(specs, slotted: bool) -> str:
 
 
 def _all_fields(s):
-    base = ["a", "b"] if s["base"] in ("unslotted", "slotted") else []
+    base = ["a", "b"] if (s["base"] and s["base"] != "hand") else []
     return base + [n for n, _, _ in s["fields"]]
 
 
 def _args(s, variant):
     """constructor arguments for all fields (base first)."""
     vals = []
-    if s["base"] in ("unslotted", "slotted"):
+    if s["base"] and s["base"] != "hand":
         vals += [10 + variant, f"s{variant}"]
     for n, typ, d in s["fields"]:
         vals.append({"int": 100 + variant, "str": f"v{variant}", "list": [variant, [variant]]}[typ])
@@ -141,7 +156,7 @@ def _args(s, variant):
 
 def _required(s):
     vals = []
-    if s["base"] in ("unslotted", "slotted") and not s["base_has_default"]:
+    if s["base"] and s["base"] != "hand" and not s["base_has_default"]:
         vals += [1, "x"]
     for n, typ, d in s["fields"]:
         if d is None and not s["base_has_default"]:
@@ -194,7 +209,7 @@ def observe(C, s, bound):
     r["fieldnames"] = tuple(f.name for f in dataclasses.fields(C))
     r["asdict"] = outcome(lambda: snapshot(dataclasses.asdict(a)))
     r["replace"] = outcome(lambda: fieldvals(dataclasses.replace(a)))
-    if s["base"] == "hand":
+    if s["base"] and "hand" in s["base"]:
         r["hand"] = outcome(lambda: a.hello())
     return r
 
